@@ -46,6 +46,7 @@ Next == /\ node >= 0
              /\ node' = IF e[3] = 1 THEN e[1] ELSE -1 - e[3]
              /\ last' = [from |-> node, req |-> ReqOf(e[2]), ri |-> e[2], rc |-> e[3]]
 Spec == Init /\ [][Next]_<<node, last>>
+View == node
 
 Good(nd) == nd.v = nd.f
 C14_NoAbort == node # -3
@@ -84,8 +85,10 @@ Chains == {Nodes[i].c : i \in DOMAIN Nodes}
 \* compact: the Python side reconstructs chain and request from the node file
 Describe(p) == LET nd == Nodes[p[1]] e == nd.e[p[2]] IN
   [node |-> nd.id, ri |-> e[2], rc |-> e[3], to |-> e[1],
-   diff |-> IF e[1] >= 0 /\ IsView(ViewsJ[Nodes[e[1] + 1].f + 1])
-            THEN DiffFields(V(Nodes[e[1] + 1].v), V(Nodes[e[1] + 1].f)) ELSE <<>>]
+   diff |-> IF e[1] < 0 THEN <<>>
+            ELSE IF IsView(ViewsJ[Nodes[e[1] + 1].f + 1])
+            THEN DiffFields(V(Nodes[e[1] + 1].v), V(Nodes[e[1] + 1].f))
+            ELSE <<"fresh-replay-aborted">>]
 DescribeDiv(p) == LET nd == Nodes[p[1]] e == nd.e[p[2]] o == Step(K, StOf(nd), ReqOf(e[2])) IN
   [node |-> nd.id, ri |-> e[2], rc |-> e[3], to |-> e[1],
    expected_resp |-> o.resp, why |-> o.why,
